@@ -789,6 +789,91 @@ def unit_parallel_factory(ndim):
     return Unit('factory/parallel_beam_geometry/ndim=%d' % ndim, run, funcs=[PAR + 'parallel_beam_geometry'], config={'ndim': ndim})
 
 
+def unit_cone_factory():
+    """cone_beam_geometry(space, src_radius, det_radius), 2-d (fan beam, flat detector): the detector partition [-w/2, w/2] must contain the
+    detector coordinate u = (rs + rd) q_t / (rs + q_n) of the ray from the source through every volume point in every view (q = the point in
+    the rotating frame: any point with |q| = |p|, p in the volume)"""
+    def run(ctx):
+        I = ctx.I
+
+        def path(st):
+            install(st)
+            fr = ip.Frame(st)
+            lo, hi = [sym('lo0'), sym('lo1')], [sym('hi0'), sym('hi1')]
+            for a, b in zip(lo, hi):
+                st.assume(a < b)
+            cs = [sym('cell0'), sym('cell1')]
+            for c in cs:
+                st.assume(c > 0)
+            rs, rd = sym('src_radius'), sym('det_radius')
+            st.assume(rs > 0)
+            st.assume(rd >= 0)
+            calls = {'upart': [], 'geom': []}
+
+            class Dom(object):
+                def pv_getattr(self, I_, fr_, name):
+                    if name == 'corners':
+                        return ip.Builtin('corners', lambda I2, fr2, a, k: ONd(np.array(list(itertools.product((lo[0], hi[0]), (lo[1], hi[1]))), dtype=object)))
+                    raise Unsupported('domain.%s' % name)
+
+            class Part(object):
+                def pv_getattr(self, I_, fr_, name):
+                    if name == 'cell_sides':
+                        return ONd(np.array(cs, dtype=object))
+                    raise Unsupported('partition.%s' % name)
+
+            class Space(object):
+                def pv_getattr(self, I_, fr_, name):
+                    d = {'domain': Dom(), 'partition': Part(), 'ndim': 2}
+                    if name in d:
+                        return d[name]
+                    raise Unsupported('space.%s' % name)
+
+            def upart(I_, fr_, min_pt=None, max_pt=None, shape=None, **kw):
+                calls['upart'].append((min_pt, max_pt, shape))
+                return ('partition', len(calls['upart']) - 1)
+            st.cuts[CONE + 'uniform_partition'] = upart
+            st.cuts['odl.discr.partition:uniform_partition'] = upart
+            st.cuts[CONE + 'FanBeamGeometry.__init__'] = lambda I_, fr_, self, *a, **k: calls['geom'].append(('FanBeamGeometry', a, k))
+            st.np_overrides = {'arctan': lambda I_, fr_, x, **k: S(z3.Real('arctan!%d' % len(calls['upart']))), 'hypot': lambda I_, fr_, a, b, **k: core.ssqrt(core.S.lift(a) * core.S.lift(a) + core.S.lift(b) * core.S.lift(b))}
+            try:
+                I.call(I.get_func(CONE + 'cone_beam_geometry'), [Space(), rs, rd], {}, fr)
+            except ip.PyRaise as e:
+                return ('raise', (e.exc, rs, lo, hi))
+            return ('ok', dict(calls=calls, lo=lo, hi=hi, rs=rs, rd=rd))
+        info = {'factory': 'cone_beam_geometry', 'ndim': 2}
+        n_ok = 0
+        for st, (status, r) in ctx.explore(path):
+            if status == 'raise':
+                exc = r[0]
+                ctx.prove(st, 'only "source too close to the object" may be raised', I.exc_isinstance(exc, 'ValueError'), info)
+                continue
+            n_ok += 1
+            calls, lo, hi, rs, rd = r['calls'], r['lo'], r['hi'], r['rs'], r['rd']
+            ok = len(calls['geom']) == 1 and len(calls['upart']) == 2
+            ctx.prove(st, 'one angle partition, one detector partition, a FanBeamGeometry', ok, info)
+            if not ok:
+                continue
+            cn, a, k = calls['geom'][0]
+            ctx.prove(st, 'geometry built from (angles, detector, src_radius, det_radius)', a[0] == ('partition', 0) and a[1] == ('partition', 1) and a[2] is rs and a[3] is rd, info)
+            dmin, dmax, _ = calls['upart'][1]
+            dmin, dmax = core.S.lift(dmin), core.S.lift(dmax)
+            p = [sym('p0'), sym('p1')]
+            for j in range(2):
+                st.assume(p[j] >= lo[j])
+                st.assume(p[j] <= hi[j])
+            qn, qt = sym('q_n'), sym('q_t')         # the point in the rotating frame of some view: same distance from the axis
+            st.assume(core.sc_eq(qn * qn + qt * qt, p[0] * p[0] + p[1] * p[1]))
+            ctx.prove(st, 'the source is outside the volume in every view  (rs + q_n > 0)', rs + qn > 0, info)
+            st.assume(rs + qn > 0)
+            ctx.prove(st, 'full horizontal coverage: detector coordinate (rs + rd) q_t / (rs + q_n) of every volume point lies in the detector range, every view',
+                      core.s_and(core.sbool((rs + rd) * qt <= dmax * (rs + qn)), core.sbool((rs + rd) * qt >= dmin * (rs + qn))), info,
+                      replay={'kind': 'cone-coverage'})
+        if n_ok == 0:
+            ctx.unsupported('unit', 'no path completes normally (vacuous)')
+    return Unit('factory/cone_beam_geometry/ndim=2', run, funcs=[CONE + 'cone_beam_geometry'], config={'ndim': 2, 'factory': 'cone_beam_geometry'})
+
+
 def unit_canary():
     """must fail: the transpose of a 2d rotation claimed equal to the rotation"""
     def run(ctx):
@@ -824,5 +909,6 @@ def units(tier, seed):
             us.append(unit_geometry(kind, msh, dsh))
     for nd in (2, 3):
         us.append(unit_parallel_factory(nd))
+    us.append(unit_cone_factory())
     us.append(unit_canary())
     return us
